@@ -29,7 +29,7 @@ func init() {
 			{"LOCK-ESCAPE", ruleLockEscape},
 		},
 		Meta: eng.PropMeta{
-			Explanation: "'Eventually' over outage sequences is a liveness statement and is not decided. Decided are the structural conditions without which delivery cannot happen: (FAILURE-RECORDED) a failed first push passes handleReplicatorFailure on the error exit of pushLog (deferred, for non-retry events), and handleReplicatorFailure writes the inactive status, the retry record and the per-document marker in one committed transaction; (RETRY-LOOP) NewPeer starts the retry loop, the loop calls retryReplicators, a due replicator is marked retrying and handed to retryReplicator, and every exit of retryReplicator that follows the marking passes handleCompletedReplicatorRetry (so a retry record never stays 'retrying'); a retried document is pushed through the same pushLog with IsRetry set and deleted from the retry set only after a successful push; (USE-AFTER-ERR) no iterator or other co-result of a failed storage call is used in package net; (PUSH-ON-UPDATE) every update event received by the peer reaches pushLogToReplicators and the pubsub publication; (SYNC-BEFORE-MERGE) the receiver raises the merge event only after a successful DAG sync; (LOADERS) replicators and subscriptions are reloaded at start-up; (LOCK-ESCAPE) the replicator table is read consistently. (KEY-KIND-PAIRING) every peer-store key that is deleted with a single Delete is built by a constructor that some Set in the package also uses, and is not a prefix key; (EVENT-COLLECTION-ID) every update event built by the database or by the retry path is addressed with a collection id (a field named CollectionID), never with a schema version id — a retried push must be resolvable by a receiver at another schema version exactly like a first push; (REPLICATOR-TABLE-EXACT) updateReplicators updates the in-memory table on every path — also when the connection attempt to the peer fails — so a replicator configured or reloaded while its peer is down is pushed to once the peer returns; (TXN-AFTER-LOCK) in a function-scope critical section (Lock … defer Unlock) the transaction is created after the lock is taken.",
+			Explanation: "'Eventually' over outage sequences is a liveness statement and is not decided. Decided are the structural conditions without which delivery cannot happen: (FAILURE-RECORDED) a failed first push passes handleReplicatorFailure on the error exit of pushLog (deferred, for non-retry events), and handleReplicatorFailure writes the inactive status, the retry record and the per-document marker in one committed transaction; (RETRY-LOOP) NewPeer starts the retry loop, the loop calls retryReplicators, a due replicator is marked retrying and handed to retryReplicator, and every exit of retryReplicator that follows the marking passes handleCompletedReplicatorRetry (so a retry record never stays 'retrying' while the node runs), and, because the state is persisted and the shutdown exit of retryReplicator (or a crash) leaves it set, handleReplicatorRetries clears stale 'retrying' records before its first tick; a retried document is pushed through the same pushLog with IsRetry set and deleted from the retry set only after a successful push; (USE-AFTER-ERR) no iterator or other co-result of a failed storage call is used in package net; (PUSH-ON-UPDATE) every update event received by the peer reaches pushLogToReplicators and the pubsub publication; (SYNC-BEFORE-MERGE) the receiver raises the merge event only after a successful DAG sync; (LOADERS) replicators and subscriptions are reloaded at start-up; (LOCK-ESCAPE) the replicator table is read consistently. (KEY-KIND-PAIRING) every peer-store key that is deleted with a single Delete is built by a constructor that some Set in the package also uses, and is not a prefix key; (EVENT-COLLECTION-ID) every update event built by the database or by the retry path is addressed with a collection id (a field named CollectionID), never with a schema version id — a retried push must be resolvable by a receiver at another schema version exactly like a first push; (REPLICATOR-TABLE-EXACT) updateReplicators updates the in-memory table on every path — also when the connection attempt to the peer fails — so a replicator configured or reloaded while its peer is down is pushed to once the peer returns; (TXN-AFTER-LOCK) in a function-scope critical section (Lock … defer Unlock) the transaction is created after the lock is taken.",
 			NotDecided:  "eventual delivery over arbitrary outage/reconnect sequences (liveness), equality of A's and B's documents at quiescence, behaviour when the retry budget is exhausted; the derivation of the collection id of a retried push from the block's schema version (predicted in DESIGN section 5 item 11) could not be reproduced and is not claimed",
 		},
 	})
@@ -131,6 +131,52 @@ func ruleRetryLoop(c *eng.Ctx) {
 			return true
 		})
 		c.Check(inLoop, rule, "handleReplicatorRetries:loops-over-retryReplicators", fi.Decl.Pos(), "the retry loop periodically calls retryReplicators", "handleReplicatorRetries no longer calls retryReplicators in its loop")
+		// The 'retrying' state is persisted and retryReplicator leaves it set when the node stops (its
+		// shutdown exit, or a crash). Before the first tick the loop therefore has to clear it: a
+		// top-level statement ahead of the loop calls a function of this module that assigns false to a
+		// Retrying field and, after that assignment, stores the record.
+		reset := false
+		for _, st := range fi.Decl.Body.List {
+			if _, isFor := st.(*ast.ForStmt); isFor {
+				break
+			}
+			es, ok := st.(*ast.ExprStmt)
+			if !ok {
+				continue
+			}
+			call, ok := es.X.(*ast.CallExpr)
+			if !ok {
+				continue
+			}
+			callee := c.P.Func(eng.CalleeName(info, call))
+			if callee == nil || callee.Decl.Body == nil {
+				continue
+			}
+			cinfo := callee.Pkg.TypesInfo
+			cflow := eng.NewFlow(cinfo, callee.Decl.Body)
+			for _, cs := range eng.Calls(cinfo, callee.Decl.Body) {
+				if cs.Name != "github.com/sourcenetwork/corekv.(Writer).Set" || cs.Lit != nil {
+					continue
+				}
+				pt, ok := cflow.PointOf(cs.Call)
+				if !ok {
+					continue
+				}
+				un := cflow.ReachesWithout(pt, func(nd ast.Node) bool {
+					as, ok := nd.(*ast.AssignStmt)
+					if !ok || len(as.Lhs) != 1 || !isFieldNamed(cinfo, as.Lhs[0], "Retrying") {
+						return false
+					}
+					tv, ok := cinfo.Types[as.Rhs[0]]
+					return ok && tv.Value != nil && tv.Value.ExactString() == "false"
+				}, nil)
+				if !un {
+					reset = true
+				}
+			}
+		}
+		c.Check(reset, rule, "handleReplicatorRetries:clears-stale-retrying-before-first-tick", fi.Decl.Pos(), "retry records left 'retrying' by an earlier run of the node are cleared before the loop starts",
+			"handleReplicatorRetries starts ticking without clearing the persisted 'retrying' state: a record left by a node that stopped (or crashed) during a retry pass is skipped by retryReplicators forever, so after a restart that peer is never pushed to again")
 	}
 	if fi := c.Anchor(rule, "net.(*Peer).retryReplicators"); fi != nil {
 		info := fi.Pkg.TypesInfo
